@@ -31,7 +31,22 @@ def merged(*ds):
     return out
 
 
+LX = {"l.inChunk": ("in_chunk", "bool"), "eof": ("eof", "bool"), "unexpectedEOF": ("ueof", "bool"),
+      "readLength": ("N.of_nat (List.length hd)", "N"), "len(Magic)": ("8%N", "N"),
+      "bytes.Equal(Magic, l.buf[:len(Magic)])": ("bytes_eqb hd magic", "bool"),
+      "l.maxRecordSize": ("lo_max_record lo", "N"), "uint64(l.maxRecordSize)": ("lo_max_record lo", "N"), "recordLen": ("rlen", "N"),
+      "math.MaxInt64": ("9223372036854775807%N", "N"), "math.MaxInt32": ("max_int32", "N"), "uint64(cap(p))": ("pcap", "N"),
+      "headerLen": ("need", "N"), "uint64(len(l.buf))": ("bufcap", "N"),
+      "l.maxDecompressedChunkSize": ("lo_max_chunk lo", "N"), "uint64(l.maxDecompressedChunkSize)": ("lo_max_chunk lo", "N"),
+      "uncompressedSize": ("usize", "N"), "uint64(len(l.uncompressedChunk))": ("ubuf", "N"),
+      "uncompressedCRC": ("ucrc", "N"), "crc": ("crc", "N"), "n": ("n", "N")}
+
 SITES = {
+    "lx_leave_chunk": ("(in_chunk eof ueof : bool)", LX), "lx_magic_end": ("(hd : bytes)", LX),
+    "lx_record_too_large": ("(lo : lopts) (rlen : N)", LX), "lx_att_too_long": ("(rlen : N)", LX), "lx_grow_p": ("(pcap rlen : N)", LX),
+    "lx_nested": ("(in_chunk : bool)", LX), "lx_complen": ("(rlen need : N)", LX), "lx_scratch_grow": ("(bufcap need : N)", LX),
+    "lx_chunk_too_large": ("(lo : lopts) (usize : N)", LX), "lx_ubuf_grow": ("(ubuf usize : N)", LX), "lx_usize_range": ("(usize : N)", LX),
+    "lx_crc_mismatch": ("(ucrc crc : N)", LX), "make_safe_ok": ("(n : N)", LX),
     "ci_less_FileOrder": ("(a b : chunkindex)", CI), "ci_less_LogTimeOrder": ("(a b : chunkindex)", CI),
     "ci_less_ReverseLogTimeOrder": ("(a b : chunkindex)", CI),
     "ci_overlap": ("(ro : ropts) (ci : chunkindex)", merged(WIN, {"idx.MessageStartTime": ("ci_start ci", "N"), "idx.MessageEndTime": ("ci_end ci", "N")})),
@@ -106,6 +121,18 @@ def render(e, leaves):
         l, tl = render(e["l"], leaves)
         r, tr = render(e["r"], leaves)
         op = e["op"]
+        if op == "+":
+            ty = tl if tl not in ("lit", "?") else tr
+            if ty == "lit":
+                return "(%s + %s)" % (l, r), "lit+"
+            ty = "N" if ty == "lit+" else ty
+            if ty in ("N", "Z"):
+                if tl in ("lit", "lit+"):
+                    l = "(%s)%%%s" % (l, ty)
+                if tr in ("lit", "lit+"):
+                    r = "(%s)%%%s" % (r, ty)
+                return "(%s.add %s %s)" % (ty, l, r), ty
+            return ident("add_%s" % ty), "?"
         if op == "&&":
             return "(andb %s %s)" % (l, r), "bool"
         if op == "||":
@@ -154,5 +181,6 @@ def write(decisions):
     """reader-side and writer-side decisions go to separate files, so that a change of shape on one side only breaks
     the tie (and with it the properties) of that side"""
     write_one("DecisionsR_gen.v", "indexed_message_iterator.go, unindexed_message_iterator.go, reader_options.go, mcap.go",
-              decisions, lambda n: not n.startswith("w_"))
+              decisions, lambda n: not n.startswith(("w_", "lx_", "make_safe")))
+    write_one("DecisionsL_gen.v", "lexer.go, mcap.go", decisions, lambda n: n.startswith(("lx_", "make_safe")))
     write_one("DecisionsW_gen.v", "writer.go", decisions, lambda n: n.startswith("w_"))
